@@ -2,17 +2,26 @@ package main
 
 import (
 	"fmt"
+	"strings"
 
 	"github.com/ajitpratap0/GoSQLX/pkg/gosqlx"
+	"github.com/ajitpratap0/GoSQLX/pkg/sql/tokenizer"
 )
 
 func main() {
-	for _, s := range []string{"SELECT (NOT a) = b OR c", "SELECT 1 FROM t WHERE (a IN (1, 2)) = TRUE AND c = 1", "SELECT (NOT a) = b", "SELECT ((NOT a) = b) + 1 > 2 OR c"} {
-		t, err := gosqlx.Parse(s)
+	for _, s := range []string{"SELECT 'left join' FROM t", "SELECT \"left join\" FROM t", "SELECT 'group by' FROM t", "SELECT 'ORDER BY' x", "SELECT a FROM t WHERE b = 'full join'", "SELECT 'grouping sets'", "SELECT $abc def", "SELECT @group by", "SELECT 'inner join', 'cross join', 'natural join', 'left outer join'"} {
+		_, err := gosqlx.Parse(s)
+		e := "ok"
 		if err != nil {
-			fmt.Println("ERR", err)
-			continue
+			e = strings.Split(err.Error(), "\n")[0]
 		}
-		fmt.Println(s, " => ", t.SQL())
+		z := tokenizer.GetTokenizer()
+		toks, _ := z.Tokenize([]byte(s))
+		var tv []string
+		for _, t := range toks {
+			tv = append(tv, fmt.Sprintf("%s:%q", t.Token.Type, t.Token.Value))
+		}
+		tokenizer.PutTokenizer(z)
+		fmt.Printf("%-50s %s\n    %s\n", s, e, strings.Join(tv, " "))
 	}
 }
